@@ -14,6 +14,25 @@ MISSED_FIRST = {
  "C15-3": "C15 painted one gradient per Renderer; it now paints sequences of 1-3 gradients on one Renderer and judges each",
  "C17-1": "the harness overwrote the resolution flag right after Reset; the flag is now read back after every Reset, also the first one on a zero-value Encoder",
  "C18-3": "option lists were passed as literals (len == cap); C18 tasks and C14 now pass prefix views of a shared option table with spare capacity",
+ "C05b-1": "needs a Renderer that drew an earlier graphic whose viewBox has the same size at another origin; C17 got 'related metadata' pairs (B's viewBox = A's moved, B's palette = A's), C05/C06 got the earlier-graphic set-up variant",
+ "C09b-3": "needs a suggested palette together with a non-default viewBox; C09's palette sub-monitor now encodes half of its palettes under a custom viewBox",
+ "C03b-3": "needs Decode with a nil Destination (validation-only use); accept/reject parity of Decode(nil, ...) added to the shared comparison (C03, C11, C02)",
+ "C06b-1": "needs an arc whose radii are exactly half the chord (scale-up boundary, exact semicircle); exact semicircles added to C06",
+ "C06b-2": "needs the rectangle to change after Reset (SetRasterizer/Reset in the other order); order variants added to C05 and C06",
+ "C07b-2": "needs a zero-value Encoder (never Reset) and a restated default LOD range; C07 feeds a zero-value Encoder in a quarter of its cases, generators restate SetLOD(0, +Inf) and SetLOD(0, 0)",
+ "C11b-1": "needs an earlier listing to be looked at after a later Disassemble call (recycled output buffer); C11 holds every other listing across a Disassemble of a second graphic and compares both",
+ "C12b-1": "needs target and box sizes whose product leaves the float32 range (4e19 x 4e19); a third of C12's cases now take magnitudes anywhere in 1e-25..1e28",
+ "C13b-3": "needs an explicitly stored all-zero viewBox; special boxes (all zero incl. negative zeros, the default box stored explicitly, point boxes) added to C13 and to the shared metadata assembler",
+ "C14b-2": "needs a full replacement equal to the default palette (64 opaque blacks); replacements equal to the default, the all-transparent and the file's own palette added to C14",
+ "C14b-3": "needs a Renderer that has just decoded another graphic with the same effective palette; half of C14's decodes now reuse such a Renderer",
+ "C15b-3": "needs SetRasterizer with a rectangle of another size between two paths filled with the same gradient and no register write in between; added to C15's gradient sequences",
+ "C16b-1": "needs a level-of-detail range in the graphic and a rasterizer made by vec.NewRasterizer(larger image); C16's graphics now carry LOD ranges and half of its cases build rasterizers that way",
+ "C16b-2": "needs one Renderer value for the stand-alone and the offset rendering (same size, other origin); half of C16's cases now use one Renderer for all renderings of the case",
+ "C16b-3": "same Renderer reuse as C16b-2 (registers not reloaded when the palette is unchanged)",
+ "C17b-2": "needs a never-Reset zero-value Encoder followed by Reset with the all-zero Metadata; C17's program B now also uses the all-zero, the default and history A's own metadata",
+ "C17b-3": "needs history A rendered into an empty rectangle with DrawOp=Src and B rendered without re-arming DrawOp, on a non-blank image; C17's pixel pairs now model the documented one-shot DrawOp across the two decodes, over a patterned background, a quarter of them with an empty rectangle for A",
+ "C18b-1": "needs a caller's palette with entries that are not valid premultiplied colours handed to Color.Resolve by pointer; C18's helper tasks now resolve against shared raw palettes, which are part of the shared-input hash",
+ "C19b-2": "needs an Encoder reused after its selectors were moved (C17 and C07 caught it); C19 now runs half of its cases on destinations with a past (dirtyDestination)",
  "C20-2": "SetTransform was called once with literals; C20 now configures the generator twice from a caller-held slice and checks that the slice is unchanged",
 }
 
